@@ -158,7 +158,28 @@ func c12r2counter(c *Ctx, id string) {
 			construct := "counter:" + m + "@" + fname(fn)
 			switch {
 			case m == "Swap" && fn.Name() == "Open" && strings.HasPrefix(w.Origin(cc.Args[1]), "len(call(recv.vBucketDiscovery.Get)()"):
-				c.OK(id, construct, in.Pos(), "Open: Swap(%s)", w.Origin(cc.Args[1]))
+				// before any stream is opened: an end arriving while the streams are being opened must not be overwritten
+				before := true
+				allInstrs(fn, func(x ssa.Instruction) {
+					if c2 := callOf(x); c2 != nil && c2.StaticCallee() != nil && w.inModule(c2.StaticCallee()) {
+						opens := false
+						for _, f := range withAnon(c2.StaticCallee()) {
+							allInstrs(f, func(y ssa.Instruction) {
+								if c3 := callOf(y); c3 != nil && (isInvokeOf(c3, "Client", "OpenStream") || (c3.StaticCallee() != nil && c3.StaticCallee().Name() == "openStream")) {
+									opens = true
+								}
+							})
+						}
+						if opens && !dominatesInstr(in, x) {
+							before = false
+						}
+					}
+				})
+				if before {
+					c.OK(id, construct, in.Pos(), "Open: Swap(%s) before the streams are opened", w.Origin(cc.Args[1]))
+				} else {
+					c.Fail(id, construct, in.Pos(), "the active-stream count is set after streams were opened: a final end arriving meanwhile is overwritten and the client never stops")
+				}
 			case m == "Add" && fn == el && w.Origin(cc.Args[1]) == "const(-1)":
 				c.OK(id, construct, in.Pos(), "end listener: Add(-1)")
 			default:
@@ -298,6 +319,9 @@ func c12r4(c *Ctx, id string) {
 				calls = append(calls, e)
 			}
 		}
+		if out.Final(recv+".endClosed") != nil {
+			return "the end handler itself writes the end switch: the observer is reused when the vBucket is reopened, so later ends of that vBucket would be swallowed"
+		}
 		if st.B(recv + ".endClosed") {
 			if len(calls) != 0 {
 				return "end forwarded although the end switch is closed"
@@ -340,6 +364,12 @@ func c12r4(c *Ctx, id string) {
 		}
 	})
 	c.Check(ok, id, "close-end", ce.Pos(), "CloseEnd sets endClosed", "CloseEnd does not set endClosed")
+	for _, fs := range w.fieldStores(f) {
+		if _, isAlloc := fs.Store.Addr.(*ssa.FieldAddr).X.(*ssa.Alloc); isAlloc {
+			continue
+		}
+		c.Check(fs.Fn == ce, id, "end-switch-writer@"+fname(fs.Fn), fs.Store.Pos(), "written only by CloseEnd", "the end switch is written in "+fname(fs.Fn))
+	}
 }
 
 // m_loadStruct renders a struct cell that was copied from a symbolic struct parameter.
@@ -370,6 +400,8 @@ func m_loadStruct(fc *cell) (string, bool) {
 func c12r5(c *Ctx, id string) {
 	w := c.W
 	oi := observerInfo(c, id)
+	// the bound itself: finite mode ⇒ the sampled high seqNo for every value (also 0), else 2^64-1 (same rule as C02.R5)
+	c02r5(c, id)
 	off := w.NamedType("models", "Offset")
 	n := 0
 	for _, name := range sortedKeys(oi.handlers) {
